@@ -80,6 +80,8 @@ def main():
                 if l.startswith("??"):
                     sh(f"rm -rf {REPO}/{l[3:]}")
         json.dump(results, open(res_path, "w"), indent=1)
+    # evidence written while a seeded change was applied describes a mutated tree: never keep it
+    sh(f"git -C {V} checkout -- evidence")
 
 
 if __name__ == "__main__":
